@@ -34,6 +34,8 @@ Obl(e) ==
     [] e.op = "KeyId" -> <<
          <<"key-id-is-sha256-of-serialized-key", e.key_id = e.sha_pub>>,
          <<"key-id-32-bytes", Len(e.key_id) = 32>>,
+         \* (an issuer value copied the moment its constructor returned reports the same key id)
+         <<"key-id-of-a-copy-is-the-key-id", e.copy_same>>,
          <<"truncated-id-is-last-byte", e.trunc = e.sha_pub[32]>>,
          <<"rsa-key-serialized-as-pss-spki", e.kind \in {"t2", "t3"} => e.pub = SpkiPss(e.n, e.e)>>,
          \* beyond the listed properties (observations): the issuer reports its token type; name key pairs compare by value
